@@ -52,7 +52,7 @@ def reserved_looking(ms):
 BASE_WEIGHTS = {
     "add": 30, "move": 12, "remove": 10, "remove_children": 2, "clear": 1, "del": 3,
     "sort": 4, "set_data": 8, "meta": 3, "filter": 3, "copy": 3, "copy_to": 3,
-    "restart": 2, "iter": 1, "visit": 1, "read": 1,
+    "restart": 2, "iter": 1, "visit": 1, "read": 1, "fromdict": 1,
 }
 
 PROFILES = {
@@ -63,11 +63,11 @@ PROFILES = {
     "C04": {"meta": 2, "sort": 2},
     "C07": {"add": 1.5, "copy": 4, "copy_to": 5},
     "C08": {"filter": 8, "copy": 6},
-    "C13": {"read": 6, "visit": 3, "sort": 2, "filter": 2, "restart": 2},
+    "C13": {"read": 6, "visit": 3, "sort": 2, "filter": 2, "restart": 2, "fromdict": 3},
     "C06": {"iter": 25, "visit": 30},
     "C05": {"restart": 8, "set_data": 1.5},
     "C12": {"restart": 8, "set_data": 1.5},
-    "C14": {"restart": 8, "set_data": 1.5},
+    "C14": {"restart": 8, "set_data": 1.5, "fromdict": 4},
 }
 
 
@@ -377,7 +377,14 @@ def gen_add(rng, cfg, w: World, opid: int, invalid: bool, steer: bool):
         if not cand:
             op["src"] = pick_data_src(rng, cfg, w, si)
         else:
-            op["src"] = {"node": rng.choice(cand).uid}
+            srcn = rng.choice(cand)
+            op["src"] = {"node": srcn.uid}
+            if rng.random() < (0.3 if invalid else 0.06):
+                # data_id= with a node source must match the source's id
+                if srcn.explicit and rng.random() < 0.5:
+                    op["data_id"] = srcn.did
+                elif cfg["ids"]:
+                    op["data_id"] = rng.choice(cfg["ids"])
             dr = rng.random()
             if dr < 0.35:
                 op["deep"] = True
@@ -639,7 +646,7 @@ def gen_verdicts(rng, start: MNode, avoid=()):
         if v in ("T", "F", "N"):
             verdicts[n.uid] = v
         else:
-            mode = rng.choice(["ret", "raise", "raise_cls"])
+            mode = rng.choice(["ret", "raise", "raise_cls", "ret_cls"])
             verdicts[n.uid] = [v, mode]
     return verdicts
 
@@ -905,7 +912,41 @@ def gen_bulk_followup(rng, cfg, w: World, opid):
     return {"id": opid, "k": "copy", "src": first.uid, "into": 1 if len(w.slots) > 1 else len(w.slots)}
 
 
+def gen_fromdict(rng, cfg, w: World, opid, invalid, steer):
+    si = pick_slot(rng, w)
+    mt = w.slots[si].model
+    leaves = [n for n in mt.root.iter_pre() if not n.children]
+    if not mt.root.children:
+        target = mt.root
+    elif leaves:
+        target = rng.choice(leaves)
+    else:
+        return None
+    budget = [rng.randint(1, 6)]
+
+    def items(depth):
+        out = []
+        for _ in range(rng.randint(1, 3)):
+            if budget[0] <= 0:
+                break
+            budget[0] -= 1
+            src = pick_data_src(rng, cfg, w, si)
+            did = None
+            if cfg["ids"] and rng.random() < cfg["p_explicit_id"]:
+                did = rng.choice(cfg["ids"])
+            kids = items(depth + 1) if depth < 3 and rng.random() < 0.5 else []
+            out.append([src, did, kids])
+        if (invalid or steer) and out and rng.random() < 0.7:
+            # a second sibling with the same data (and id): refused as a whole
+            dup = rng.choice(out)
+            out.insert(rng.randint(0, len(out)), [dup[0], dup[1], []])
+        return out
+
+    return {"id": opid, "k": "fromdict", "node": ref_of(si, target), "items": items(0)}
+
+
 GENERATORS = {
+    "fromdict": gen_fromdict,
     "add": gen_add, "move": gen_move, "remove": gen_remove,
     "remove_children": gen_remove_children, "clear": gen_clear, "del": gen_del,
     "sort": gen_sort, "set_data": gen_set_data, "meta": gen_meta, "filter": gen_filter,
